@@ -505,7 +505,9 @@ pub fn check_main(def: &PropDef, tier: Tier) -> i32 {
             }
         };
         println!("clause: {}", viol.clause);
-        println!("detail: {}", viol.detail.lines().next().unwrap_or(""));
+        let first = viol.detail.lines().next().unwrap_or("");
+        let cut: String = first.chars().take(400).collect();
+        println!("detail: {}{}", cut, if first.chars().count() > 400 { " …" } else { "" });
         println!("VIOLATION property={} replay={}", def.id, final_path.display());
         reported += 1;
         exit = 1;
